@@ -1,7 +1,7 @@
 (** * C11: the hypotheses are satisfiable by non-trivial values; witnesses of the findings that stay. *)
 From Coq Require Import List NArith Bool Lia.
 From XmlRs Require Import Base.CPred Spec.AttrNorm Model.AttrModel Proofs.AttrTokenProofs
-  Proofs.AttrNormProofs Proofs.AttrSetProofs.
+  Proofs.AttrNormProofs Proofs.AttrSetProofs Proofs.AttrWfProofs.
 Import ListNotations.
 Open Scope N_scope.
 
@@ -168,3 +168,39 @@ Example dtd_ok_attrs :
        {| ai_name := n_a; ai_value := Ok [98; 32; 99]; ai_specified := false; ai_type := Some TNmtokens |};
        {| ai_name := [100]; ai_value := Ok [32; 51; 32]; ai_specified := false; ai_type := Some TCdata |} ].
 Proof. vm_compute. reflexivity. Qed.
+
+(** the hypotheses of the all-documents theorem hold for [dtd_ok], and for an ILL-formed variant of it
+    (an attribute-list default refers to an entity declared later; a literal reaches a cycle): both sides
+    refuse those, as the theorem says *)
+Lemma predefined_free_check (T : table) :
+  forallb (fun n => match declared T n with None => true | Some _ => false end) [n_lt; n_gt; n_amp; n_apos; n_quot] = true ->
+  predefined_free T.
+Proof.
+  intros H n Hn. rewrite forallb_forall in H. unfold predefined in Hn.
+  destruct (str_eqb n n_lt) eqn:E1; [apply str_eqb_eq in E1; subst n; specialize (H n_lt); cbn [In] in H;
+    destruct (declared T n_lt); [discriminate H; auto|reflexivity]|].
+  destruct (str_eqb n n_gt) eqn:E2; [apply str_eqb_eq in E2; subst n; specialize (H n_gt); cbn [In] in H;
+    destruct (declared T n_gt); [discriminate H; auto|reflexivity]|].
+  destruct (str_eqb n n_amp) eqn:E3; [apply str_eqb_eq in E3; subst n; specialize (H n_amp); cbn [In] in H;
+    destruct (declared T n_amp); [discriminate H; auto 6|reflexivity]|].
+  destruct (str_eqb n n_apos) eqn:E4; [apply str_eqb_eq in E4; subst n; specialize (H n_apos); cbn [In] in H;
+    destruct (declared T n_apos); [discriminate H; auto 6|reflexivity]|].
+  destruct (str_eqb n n_quot) eqn:E5; [apply str_eqb_eq in E5; subst n; specialize (H n_quot); cbn [In] in H;
+    destruct (declared T n_quot); [discriminate H; auto 8|reflexivity]|].
+  congruence.
+Qed.
+
+Example dtd_ok_all_hyps : simple_table (entities_of dtd_ok) /\ predefined_free (entities_of dtd_ok).
+Proof. split; [apply known_esc_simple; vm_compute; reflexivity|apply predefined_free_check; vm_compute; reflexivity]. Qed.
+
+Definition dtd_bad : dtd_doc :=
+  [ DAttlist n_e [ {| ad_name := n_a; ad_type := TCdata; ad_default := Default false [EntRef e_z] |} ];
+    DEntity e_z [Text [98]];
+    DEntity e_x [EntRef e_y]; DEntity e_y [EntRef e_x] ].
+Example dtd_bad_hyps : simple_table (entities_of dtd_bad) /\ predefined_free (entities_of dtd_bad).
+Proof. split; [apply known_esc_simple; vm_compute; reflexivity|apply predefined_free_check; vm_compute; reflexivity]. Qed.
+Example dtd_bad_refused :
+  model_attrs dtd_bad n_e [] = IllFormed /\ spec_attrs dtd_bad n_e [] = IllFormed /\
+  model_attrs (tl dtd_bad) n_e [(n_a, [EntRef e_x])] = IllFormed /\ spec_attrs (tl dtd_bad) n_e [(n_a, [EntRef e_x])] = IllFormed /\
+  spec_attrs (tl dtd_bad) n_e [(n_a, [EntRef e_z])] <> IllFormed.
+Proof. repeat split; vm_compute; try reflexivity. discriminate. Qed.
